@@ -136,7 +136,7 @@ def run_c12(tier):
         inputs.append(("confusion", [confusion_yaml(subs, rng).encode()], None, {}))
     n_conf = len(inputs)
     # ---- (b) size / depth / cycles
-    for n in (10, 100, 3000):
+    for n in (10, 100, 1500):
         inputs.append(("deep-seq", [("parameters:\n  p: " + "[" * n + "]" * n + "\n").encode()], None, {}))
         inputs.append(("deep-map", [("parameters:\n  p: " + "{a: " * n + "1" + "}" * n + "\n").encode()], None, {}))
         inputs.append(("long-name", [("services:\n  %s: {constructor: NewA}\nparameters:\n  %s: 1\n" % ("s" * n * 30, "p" * n * 30)).encode()], None, {}))
@@ -202,7 +202,7 @@ def run_c12(tier):
                 os.symlink("in.yaml", o)
             elif odd == "big":
                 with open(o, "wb") as f:
-                    f.write(b"parameters:\n" + b"".join(b"  k%d: %d\n" % (q, q) for q in range(60000)))
+                    f.write(b"parameters:\n" + b"".join(b"  k%d: %d\n" % (q, q) for q in range(4000)))
             elif odd == "empty":
                 open(o, "wb").close()
             elif odd == "nul":
@@ -226,7 +226,7 @@ def run_c12(tier):
             if fl[k]:
                 args.append(a)
         jobs.append({"id": i, "dir": d, "args": args, "version": rng.choice(["dev-main", "1.0.0", "0.3.1"]), "buildinfo": "verif", "out": "out.go",
-                     "timeout_ms": 30000})
+                     "timeout_ms": 120000})
         metas.append({"label": label, "flags": fl, "pre": "file" if pre_exists else "absent"})
     pool = core.DriverPool()
     try:
@@ -245,7 +245,7 @@ def run_c12(tier):
                     case["dir_files"][nm] = open(os.path.join(j["dir"], nm), "rb").read()[:3000].decode("utf8", "replace")
                 except OSError:
                     pass
-            kind = {2: "panic", 3: "hang (30 s watchdog)", 5: "process died (fatal error / os.Exit)"}.get(res["exit"], "abnormal exit %s" % res["exit"])
+            kind = {2: "panic", 3: "hang (120 s watchdog)", 5: "process died (fatal error / os.Exit)"}.get(res["exit"], "abnormal exit %s" % res["exit"])
             v.disagree(kind, case, {"panic": res.get("panic", "")[:700]}, tags={"label": m["label"]})
             continue
         if res.get("ms", 0) > 10000:
@@ -291,7 +291,7 @@ def run_c12(tier):
         "rule": "inputs = %d node-kind confusions enumerated by TLC (every node of a complete base document x %d YAML node kinds, singly and a "
                 "seeded set of pairs) + size/depth/cycle stress + seeded blind mutation (byte and token level) of a corpus of valid and invalid "
                 "configurations incl. the repository's own, with arbitrary glob patterns and flag combinations; each run in-process with recover() "
-                "and a 30 s watchdog over a pre-existing or absent -o file; distinct_nontrivial = distinct execution signatures (step sequence, "
+                "and a 120 s watchdog over a pre-existing or absent -o file; distinct_nontrivial = distinct execution signatures (step sequence, "
                 "statuses, capped counts, exit, file effect), each validated by TLC as a behaviour of Pipeline.tla with a free environment" % (n_conf, len(KIND_YAML)),
         "samples": ex, "states": r.states, "traces_validated_against_impl": n_valid,
         "inputs_by_class": classes, "runs_slower_than_10s": slow,
